@@ -482,6 +482,367 @@ Proof.
       destruct (Nat.eq_dec j k) as [->|]; [exact Hex|]. eapply IH1; eauto. lia.
 Qed.
 
+
+(* ======================================================================================== *)
+(* second case analysis of `step`: what happens to the global queue                           *)
+Definition quiet (p : pc) : bool := match p with WSteal _ | WTake | WPop _ | WExit => true | _ => false end.
+Lemma dispatch_fun : forall id, dispatch (IFun id) = WBegin id. Proof. reflexivity. Qed.
+Lemma dispatch_exit : forall it, dispatch it = WExit -> is_stop it = true.
+Proof.
+  intros it H. unfold dispatch in H. destruct (item_code it =? worker_runs_on)%Z; [destruct it; discriminate|].
+  unfold is_stop. destruct (item_code it =? worker_exits_on)%Z; auto. discriminate.
+Qed.
+Lemma dispatch_not_pop : forall it q, dispatch it <> WPop q.
+Proof. intros it q. unfold dispatch. destruct (_ =? _)%Z; [destruct it; discriminate|]. destruct (_ =? _)%Z; discriminate. Qed.
+Lemma dispatch_cases : forall it, (exists id, it = IFun id /\ dispatch it = WBegin id) \/ dispatch it = WLoop \/ dispatch it = WExit.
+Proof. intros it. unfold dispatch. destruct (_ =? _)%Z; [destruct it; eauto|]. destruct (_ =? _)%Z; auto. Qed.
+
+Definition app_slot (q : queue) (it : item) : queue := {| slots := slots q ++ [SPend it]; npop := npop q |}.
+Definition bump_pop (q : queue) : queue := {| slots := slots q; npop := S (npop q) |}.
+Inductive gop := GSame | GApp (it : item) | GFill (p : nat) | GTake | GPop (q : nat) (it : item).
+Definition gq_rel (g g' : queue) (o : gop) : Prop :=
+  match o with
+  | GSame => g' = g
+  | GApp it => g' = app_slot g it
+  | GFill p => g' = fill g p
+  | GTake => g' = bump_pop g
+  | GPop q it => pop_ready g q = Some (it, g')
+  end.
+
+Ltac kill_gen :=
+  try (rewrite (proj2 gen_local_first) in *; discriminate); try (rewrite (proj2 gen_pop_needed) in *; discriminate).
+Ltac clean_hyps :=
+  unfold stop_loop, after_steal, after_sweep in *;
+  repeat match goal with H : context [if ?b then _ else _] |- _ => destruct b eqn:? end;
+  try discriminate;
+  repeat match goal with
+         | H : dispatch _ = WPop _ |- _ => exfalso; exact (dispatch_not_pop _ _ H)
+         | H : WPop _ = dispatch _ |- _ => exfalso; symmetry in H; exact (dispatch_not_pop _ _ H)
+         | H : WPop _ = WPop _ |- _ => injection H as ?; subst
+         | H : GPop _ _ = GPop _ _ |- _ => injection H as ? ?; subst
+         | H : GApp _ = GApp _ |- _ => injection H as ?; subst
+         | H : GFill _ = GFill _ |- _ => injection H as ?; subst
+         end.
+
+Lemma step_gq : forall c s t s', step c s t = Some s' ->
+  exists th th' o, nth_error (threads s) t = Some th /\ threads s' = set_nth t th' (threads s) /\
+    gq_rel (gq s) (gq s') o /\
+    (forall q, tpc th' = WPop q -> o = GTake /\ q = npop (gq s)) /\
+    (forall q, tpc th = WPop q -> exists it, o = GPop q it) /\
+    (forall q it, o = GPop q it -> tpc th = WPop q /\ tpc th' = dispatch it) /\
+    (o = GTake -> tpc th' = WPop (npop (gq s))) /\
+    (tpc th' = WExit -> exists it, is_stop it = true /\
+        ((exists q, o = GPop q it) \/ (exists k q', try_pop (lq_of s k) = Some (it, q')))) /\
+    (forall id, o = GApp (IFun id) -> (exists k, tpc th = BTake k (IFun id)) \/
+        (exists p, tpc th' = EFill p (IFun id)) \/ (exists i r p, tpc th' = WFill i r p id)).
+Proof.
+  intros c s t s' H. destr_step H; kill_gen; simp_st; eexists; eexists;
+    (first [ exists GSame; split; [reflexivity|]; split; [reflexivity|]; split; [reflexivity|]
+           | eexists (GApp _); split; [reflexivity|]; split; [reflexivity|]; split; [reflexivity|]
+           | eexists (GFill _); split; [reflexivity|]; split; [reflexivity|]; split; [reflexivity|]
+           | exists GTake; split; [reflexivity|]; split; [reflexivity|]; split; [reflexivity|]
+           | eexists (GPop _ _); split; [reflexivity|]; split; [reflexivity|]; split; [eassumption|] ]);
+    cbn [tpc trole goto next_op];
+    repeat match goal with H : tpc _ = _ |- _ => rewrite H end;
+    repeat split; intros; clean_hyps; try discriminate; eauto 6;
+    match goal with H : dispatch ?i = WExit |- _ => exists i; split; [exact (dispatch_exit _ H) | eauto 6] end.
+Qed.
+
+(* ... and to the local queues *)
+Inductive lop := LSame | LPop (k : nat) (it : item) (q' : queue) | LPush (w id : nat).
+Definition lq_rel (s : st) (l' : list queue) (o : lop) : Prop :=
+  match o with
+  | LSame => l' = lqs s
+  | LPop k it q' => try_pop (lq_of s k) = Some (it, q') /\ l' = set_nth k q' (lqs s)
+  | LPush w id => l' = set_nth w (local_push (lq_of s w) (IFun id)) (lqs s)
+  end.
+
+Lemma step_lq : forall c s t s', step c s t = Some s' ->
+  exists th th' o, nth_error (threads s) t = Some th /\ threads s' = set_nth t th' (threads s) /\
+    lq_rel s (lqs s') o /\
+    (forall k it q', o = LPop k it q' -> tpc th' = dispatch it \/ tpc th' = BTake k it) /\
+    (forall w id, o = LPush w id -> trole th = RWorker w /\ quiet (tpc th) = false /\
+                                    exists i r, tpc th = WRun i (id :: r) /\ tpc th' = WRun i r) /\
+    (forall w, trole th = RWorker w -> quiet (tpc th') = true ->
+       quiet (tpc th) = true \/ (tpc th = WLoop /\ try_pop (lq_of s w) = None) \/
+       (exists k it q', o = LPop k it q' /\ tpc th' = dispatch it)).
+Proof.
+  intros c s t s' H. destr_step H; kill_gen; simp_st; eexists; eexists;
+    (first [ exists LSame; split; [reflexivity|]; split; [reflexivity|]; split; [reflexivity|]
+           | eexists (LPop _ _ _); split; [reflexivity|]; split; [reflexivity|]; split; [split; [eassumption|reflexivity]|]
+           | eexists (LPush _ _); split; [reflexivity|]; split; [reflexivity|]; split; [reflexivity|] ]);
+    cbn [tpc trole goto next_op];
+    repeat match goal with H : tpc _ = _ |- _ => rewrite H end;
+    repeat split; intros;
+    repeat match goal with H1 : trole ?x = _, H2 : trole ?x = _ |- _ => rewrite H1 in H2 end;
+    repeat match goal with
+           | H : LPop _ _ _ = LPop _ _ _ |- _ => injection H as ? ? ?; subst
+           | H : LPush _ _ = LPush _ _ |- _ => injection H as ? ?; subst
+           | H : RWorker _ = RWorker _ |- _ => injection H as ?; subst
+           end;
+    try discriminate; try congruence; cbn [quiet] in *; try discriminate; eauto 8.
+Qed.
+
+
+(* ... to the tasks a thread holds and to the bookkeeping of accepted tasks *)
+Definition held_ids (p : pc) : list nat :=
+  match p with
+  | WBegin id | WRun id _ | WGTake id _ _ | WFill id _ _ _ => [id]
+  | BTake _ (IFun id) => [id]
+  | _ => []
+  end.
+Definition pend (p : pc) : list nat :=
+  match p with EFill _ (IFun id) => [id] | WFill _ _ _ ch => [ch] | _ => [] end.
+
+Lemma pend_dispatch : forall it, pend (dispatch it) = [].
+Proof. intros it. unfold dispatch. destruct (_ =? _)%Z; [destruct it; reflexivity|]. destruct (_ =? _)%Z; reflexivity. Qed.
+Lemma held_dispatch_mark : forall c, held_ids (dispatch (IMark c)) = [].
+Proof. intros c. unfold dispatch. destruct (_ =? _)%Z; [reflexivity|]. destruct (_ =? _)%Z; reflexivity. Qed.
+
+Lemma step_held : forall c s t s', step c s t = Some s' ->
+  exists th th', nth_error (threads s) t = Some th /\ threads s' = set_nth t th' (threads s) /\
+    (forall id, In id (held_ids (tpc th)) -> In id (held_ids (tpc th')) \/ In id (finished s') \/
+                (exists k, tpc th = BTake k (IFun id) /\ gq s' = app_slot (gq s) (IFun id))) /\
+    (forall id, In id (finished s) -> In id (finished s')) /\
+    (forall id, In id (acc_before s') -> In id (acc_before s) \/ (stop_called s = false /\ In id (pend (tpc th))) \/
+                (exists w, trole th = RWorker w /\ lqs s' = set_nth w (local_push (lq_of s w) (IFun id)) (lqs s))) /\
+    (forall id, In id (acc_local s') -> In id (acc_local s) \/
+                (exists w, trole th = RWorker w /\ lqs s' = set_nth w (local_push (lq_of s w) (IFun id)) (lqs s))) /\
+    (forall id, In id (pend (tpc th')) -> In id (pend (tpc th)) \/ gq s' = app_slot (gq s) (IFun id)) /\
+    (stop_called s' = false -> stop_called s = false).
+Proof.
+  intros c s t s' H. destr_step H; kill_gen; simp_st; eexists; eexists;
+    (split; [reflexivity|]; split; [reflexivity|]);
+    repeat match goal with it : item |- _ => destruct it end;
+    cbn [tpc trole goto next_op note_accept acc_before acc_local finished stop_called];
+    repeat match goal with H : tpc _ = _ |- _ => rewrite H end;
+    rewrite ?dispatch_fun; unfold app_slot, stop_loop, after_steal, after_sweep;
+    repeat match goal with |- context [if ?b then _ else _] => destruct b eqn:? end;
+    rewrite ?pend_dispatch, ?held_dispatch_mark;
+    repeat split; intros;
+    repeat match goal with
+           | H : context [if stop_called ?s then _ else _] |- _ => destruct (stop_called s) eqn:?
+           end;
+    cbn [held_ids pend In] in *;
+    rewrite ?In_ins in *;
+    repeat match goal with
+           | H : False |- _ => destruct H
+           | H : _ \/ False |- _ => destruct H as [H|[]]
+           | H : _ = _ \/ In _ _ |- _ => destruct H as [H|H]
+           end;
+    subst; try discriminate; eauto 6.
+Qed.
+
+
+
+(* ======================================================================================== *)
+(* the three case analyses talk about the same pair of threads                                *)
+Lemma set_nth_inj : forall A (l : list A) t a b, t < length l -> set_nth t a l = set_nth t b l -> a = b.
+Proof.
+  intros A l t a b Hlt H. apply (f_equal (fun x => nth_error x t)) in H.
+  rewrite !nth_error_set_nth_eq in H by auto. congruence.
+Qed.
+Ltac same_threads :=
+  repeat match goal with
+         | H1 : nth_error ?l ?t = Some ?a, H2 : nth_error ?l ?t = Some ?b |- _ =>
+           assert (b = a) by congruence; subst b; clear H2
+         | H1 : threads ?s' = set_nth ?t ?a ?l, H2 : threads ?s' = set_nth ?t ?b ?l, Hn : nth_error ?l ?t = Some _ |- _ =>
+           assert (b = a) by (eapply set_nth_inj; [eapply nth_error_lt; exact Hn | congruence]); subst b; clear H2
+         end.
+
+Lemma quiet_dispatch : forall it, quiet (dispatch it) = true -> dispatch it = WExit.
+Proof. intros it. unfold dispatch. destruct (_ =? _)%Z; [destruct it; cbn; congruence|]. destruct (_ =? _)%Z; cbn; congruence. Qed.
+
+(* ======================================================================================== *)
+(* shape of a local queue: consumed FUNCTION slots, then written FUNCTION slots                *)
+Definition lq_ok (q : queue) : Prop :=
+  npop q <= length (slots q) /\
+  forall i x, nth_error (slots q) i = Some x ->
+    (i < npop q -> exists id, x = SDone (IFun id)) /\ (npop q <= i -> exists id, x = SFull (IFun id)).
+Definition drained (q : queue) : Prop := npop q = length (slots q).
+
+Lemma lq_ok_empty : lq_ok empty_queue.
+Proof. split; [cbn; lia|]. intros [|i] x H; discriminate. Qed.
+Lemma try_pop_ok : forall q it q', try_pop q = Some (it, q') -> lq_ok q -> lq_ok q' /\ exists id, it = IFun id.
+Proof.
+  intros q it q' H [Hle Hq]. unfold try_pop in H. destruct (nth_error (slots q) (npop q)) as [[x|x|x]|] eqn:E; try discriminate.
+  injection H as <- <-. destruct (Hq _ _ E) as [_ H2]. destruct (H2 (le_n _)) as (id & Hid). injection Hid as ->.
+  split; [|eauto]. pose proof (nth_error_lt _ _ _ _ E) as Hlt. split; cbn; [rewrite set_nth_length; lia|].
+  intros i y Hy. apply nth_error_set_nth in Hy. destruct Hy as [[<- ->]|[Hne Hy]].
+  - split; [eauto | lia].
+  - destruct (Hq _ _ Hy) as [A B]. split; intros; [apply A | apply B]; lia.
+Qed.
+Lemma local_push_ok : forall q id, lq_ok q -> lq_ok (local_push q (IFun id)).
+Proof.
+  intros q id [Hle Hq]. split; cbn; [rewrite app_length; cbn; lia|]. intros i x Hx.
+  destruct (lt_dec i (length (slots q))) as [Hlt|Hge].
+  - rewrite nth_error_app1 in Hx by auto. auto.
+  - rewrite nth_error_app2 in Hx by lia. destruct (i - length (slots q)) as [|k] eqn:E; [|destruct k; discriminate].
+    injection Hx as <-. split; [lia | eauto].
+Qed.
+Lemma try_pop_none : forall q, lq_ok q -> try_pop q = None -> drained q.
+Proof.
+  intros q [Hle Hq] H. unfold drained. destruct (Nat.eq_dec (npop q) (length (slots q))) as [|Hne]; auto. exfalso.
+  assert (Hlt : npop q < length (slots q)) by lia. apply nth_error_Some in Hlt.
+  destruct (nth_error (slots q) (npop q)) as [x|] eqn:E; [|congruence].
+  destruct (Hq _ _ E) as [_ H2]. destruct (H2 (le_n _)) as (id & ->). unfold try_pop in H. rewrite E in H. discriminate.
+Qed.
+Lemma drained_try_pop : forall q, drained q -> try_pop q = None.
+Proof.
+  intros q H. unfold try_pop, drained in *. rewrite H.
+  destruct (nth_error (slots q) (length (slots q))) eqn:E; auto. apply nth_error_lt in E. lia.
+Qed.
+Lemma drained_no_full : forall q, lq_ok q -> drained q -> forall i it, nth_error (slots q) i <> Some (SFull it).
+Proof.
+  intros q [Hle Hq] Hd i it H. unfold drained in Hd. pose proof (nth_error_lt _ _ _ _ H) as Hlt.
+  destruct (Hq _ _ H) as [A _]. destruct A as (id & X); [lia | discriminate].
+Qed.
+
+Lemma lq_of_ok : forall s k, Forall lq_ok (lqs s) -> lq_ok (lq_of s k).
+Proof.
+  intros s k H. unfold lq_of. destruct (nth_in_or_default k (lqs s) empty_queue) as [Hin|Heq].
+  - rewrite Forall_forall in H. auto.
+  - rewrite Heq. apply lq_ok_empty.
+Qed.
+
+Lemma ex_lq_ok : forall c progs s, Reach c progs s -> Forall lq_ok (lqs s).
+Proof.
+  intros c progs. apply (reach_ind c progs (fun s => Forall lq_ok (lqs s))).
+  - cbn. apply Forall_forall. intros q Hq. apply repeat_spec in Hq. subst. apply lq_ok_empty.
+  - intros s t s' _ IH Hs. destruct (step_lq _ _ _ _ Hs) as (th & th' & o & _ & _ & Hrel & _).
+    destruct o as [|k it q'|w id]; cbn in Hrel.
+    + now rewrite Hrel.
+    + destruct Hrel as [Hp ->]. apply Forall_set_nth; auto. eapply try_pop_ok; eauto using lq_of_ok.
+    + rewrite Hrel. apply Forall_set_nth; auto. apply local_push_ok. auto using lq_of_ok.
+Qed.
+
+Lemma nth_set_nth_neq : forall A (l : list A) k w x d, k <> w -> nth w (set_nth k x l) d = nth w l d.
+Proof. induction l as [|y l IH]; intros [|k] [|w] x d H; cbn; auto; congruence. Qed.
+
+(* a worker that found its local queue empty (stealing, waiting on the global queue, exited) still has an empty
+   local queue: only the owner pushes to it, and only from inside a task *)
+Lemma ex_quiet_drained : forall c progs s, Reach c progs s ->
+  forall t th w, nth_error (threads s) t = Some th -> trole th = RWorker w -> quiet (tpc th) = true -> drained (lq_of s w).
+Proof.
+  intros c progs. apply (reach_ind c progs (fun s => forall t th w, nth_error (threads s) t = Some th ->
+    trole th = RWorker w -> quiet (tpc th) = true -> drained (lq_of s w))).
+  - intros t th w H _ Hq. apply nth_error_In, init_threads_in in H.
+    destruct H as [[_ E]|[(w0 & _ & E)|[_ E]]]; rewrite E in Hq; discriminate.
+  - intros s t s' Hr IH Hs.
+    pose proof (layout_reach _ _ _ Hr) as Hlay.
+    destruct (ex_local_funs _ _ _ Hr) as [Hfuns _].
+    pose proof (ex_lq_ok _ _ _ Hr) as Hok.
+    destruct (step_lq _ _ _ _ Hs) as (th & th' & o & Hn & Ht & Hrel & Hpop & Hpush & Hq).
+    destruct (step_facts _ _ _ _ Hs) as (th1 & th1' & Hn1 & Ht1 & Hrole1 & _).
+    same_threads.
+    assert (Hlq : forall w0, drained (lq_of s w0) -> (forall id, o <> LPush w0 id) -> drained (lq_of s' w0)).
+    { intros w0 Hd Hnp. unfold lq_of in *. destruct o as [|k it q'|w1 id]; cbn in Hrel.
+      - now rewrite Hrel.
+      - destruct Hrel as [Hp ->]. destruct (Nat.eq_dec k w0) as [->|Hne].
+        + exfalso. unfold lq_of in Hp. rewrite drained_try_pop in Hp by auto. discriminate.
+        + now rewrite nth_set_nth_neq.
+      - rewrite Hrel. destruct (Nat.eq_dec w1 w0) as [->|Hne]; [exfalso; eapply Hnp; eauto|]. now rewrite nth_set_nth_neq. }
+    intros t0 th0 w Hn0 Hrole Hquiet. rewrite Ht in Hn0. apply nth_error_set_nth in Hn0.
+    destruct Hn0 as [[-> ->]|[Hne Hn0]].
+    + rewrite Hrole1 in Hrole. destruct (Hq w Hrole Hquiet) as [Hqo|[[Hpc Hnone]|(k & it & q' & -> & Hd)]].
+      * apply Hlq; [eapply IH; eauto|]. intros id ->. destruct (Hpush _ _ eq_refl) as (_ & Hnq & _). congruence.
+      * apply Hlq; [apply try_pop_none; auto using lq_of_ok|]. intros id ->.
+        destruct (Hpush _ _ eq_refl) as (_ & _ & i & r & Hp & _). congruence.
+      * exfalso. rewrite Hd in Hquiet. apply quiet_dispatch, dispatch_exit in Hquiet. cbn in Hrel. destruct Hrel as [Hp _].
+        destruct (try_pop_funs _ _ _ Hp (lq_of_funs _ _ Hfuns)) as [(id & ->) _]. discriminate.
+    + apply Hlq; [eapply IH; eauto|]. intros id ->. destruct (Hpush _ _ eq_refl) as (Hrw & _).
+      pose proof (role_at _ _ _ _ _ Hlay Hn) as R1. rewrite Hrw in R1.
+      pose proof (role_at _ _ _ _ _ Hlay Hn0) as R2. rewrite Hrole in R2. lia.
+Qed.
+
+(* ======================================================================================== *)
+(* tickets of the global queue                                                                *)
+Lemma pop_ready_inv : forall g q it g', pop_ready g q = Some (it, g') ->
+  nth_error (slots g) q = Some (SFull it) /\ slots g' = set_nth q (SDone it) (slots g) /\ npop g' = npop g.
+Proof.
+  intros g q it g' H. unfold pop_ready in H. destruct (nth_error (slots g) q) as [[x|x|x]|] eqn:E; try discriminate.
+  injection H as <- <-. auto.
+Qed.
+Lemma gq_npop : forall g g' o, gq_rel g g' o -> npop g' = match o with GTake => S (npop g) | _ => npop g end.
+Proof.
+  intros g g' [|it|p| |q it] H; cbn in H; subst; auto. apply pop_ready_inv in H. tauto.
+Qed.
+Lemma fill_slots : forall g p, slots (fill g p) = slots g \/
+  exists it, nth_error (slots g) p = Some (SPend it) /\ slots (fill g p) = set_nth p (SFull it) (slots g).
+Proof. intros g p. unfold fill; cbn. destruct (nth_error (slots g) p) as [[it|it|it]|]; eauto. Qed.
+Lemma sdone_fwd : forall g g' o r it, gq_rel g g' o -> nth_error (slots g) r = Some (SDone it) ->
+  nth_error (slots g') r = Some (SDone it).
+Proof.
+  intros g g' [|x|p| |q x] r it H Hd; cbn in H; subst; auto.
+  - cbn. rewrite nth_error_app1; auto. eapply nth_error_lt; eauto.
+  - destruct (fill_slots g p) as [->|(y & Hy & ->)]; auto. rewrite nth_error_set_nth_neq; auto. congruence.
+  - apply pop_ready_inv in H. destruct H as (Hs & -> & _). rewrite nth_error_set_nth_neq; auto. congruence.
+Qed.
+Lemma sdone_bwd : forall g g' o r it, gq_rel g g' o -> nth_error (slots g') r = Some (SDone it) ->
+  nth_error (slots g) r = Some (SDone it) \/ o = GPop r it.
+Proof.
+  intros g g' [|x|p| |q x] r it H Hd; cbn in H; subst; auto.
+  - cbn in Hd. destruct (lt_dec r (length (slots g))) as [Hlt|Hge].
+    + rewrite nth_error_app1 in Hd; auto.
+    + rewrite nth_error_app2 in Hd by lia. destruct (r - length (slots g)) as [|k]; [discriminate|destruct k; discriminate].
+  - destruct (fill_slots g p) as [E|(y & Hy & E)]; rewrite E in Hd; auto.
+    apply nth_error_set_nth in Hd. destruct Hd as [[_ X]|[_ X]]; [discriminate|auto].
+  - apply pop_ready_inv in H. destruct H as (Hs & E & _). rewrite E in Hd.
+    apply nth_error_set_nth in Hd. destruct Hd as [[<- X]|[_ X]]; auto. injection X as ->. auto.
+Qed.
+
+Record TicketInv (s : st) : Prop := {
+  tk_wait : forall t th q, nth_error (threads s) t = Some th -> tpc th = WPop q -> q < npop (gq s);
+  tk_served : forall q, q < npop (gq s) ->
+    (exists it, nth_error (slots (gq s)) q = Some (SDone it)) \/
+    (exists t th, nth_error (threads s) t = Some th /\ tpc th = WPop q);
+  tk_done : forall r it, nth_error (slots (gq s)) r = Some (SDone it) -> r < npop (gq s);
+  tk_exit : (exists t th, nth_error (threads s) t = Some th /\ tpc th = WExit) ->
+            exists r it, nth_error (slots (gq s)) r = Some (SDone it) /\ is_stop it = true
+}.
+
+(* every pop ticket taken so far has been served or has a worker waiting for exactly it; a consumed slot lies
+   below the pop index; a worker has exited only if a STOP marker of the global queue has been consumed *)
+Lemma ex_tickets : forall c progs s, Reach c progs s -> TicketInv s.
+Proof.
+  intros c progs. apply (reach_ind c progs TicketInv).
+  - constructor.
+    + intros t th q H Hp. apply nth_error_In, init_threads_in in H.
+      destruct H as [[_ E]|[(w0 & _ & E)|[_ E]]]; rewrite E in Hp; discriminate.
+    + cbn. intros q Hq. lia.
+    + cbn. intros [|r] it H; discriminate.
+    + intros (t & th & H & Hp). apply nth_error_In, init_threads_in in H.
+      destruct H as [[_ E]|[(w0 & _ & E)|[_ E]]]; rewrite E in Hp; discriminate.
+  - intros s t s' Hr IH Hs.
+    destruct (ex_local_funs _ _ _ Hr) as [Hfuns _].
+    destruct (step_gq _ _ _ _ Hs) as (th & th' & o & Hn & Ht & Hrel & Hnew & Hold & Hpopf & Htake & Hexit & _).
+    pose proof (gq_npop _ _ _ Hrel) as Hnp.
+    assert (Hlt : t < length (threads s)) by (eapply nth_error_lt; eauto).
+    constructor.
+    + intros t0 th0 q Hn0 Hp. rewrite Ht in Hn0. apply nth_error_set_nth in Hn0. destruct Hn0 as [[-> ->]|[Hne Hn0]].
+      * destruct (Hnew _ Hp) as [-> ->]. rewrite Hnp. lia.
+      * pose proof (tk_wait _ IH _ _ _ Hn0 Hp). rewrite Hnp. destruct o; lia.
+    + intros q Hq.
+      assert (Hq' : q < npop (gq s) \/ (o = GTake /\ q = npop (gq s))) by (rewrite Hnp in Hq; destruct o; try (left; exact Hq); destruct (Nat.eq_dec q (npop (gq s))); [right; auto | left; lia]).
+      destruct Hq' as [Hq'|[-> ->]].
+      * destruct (tk_served _ IH q Hq') as [(it & Hd)|(t1 & th1 & Hn1 & Hp1)].
+        -- left. exists it. eapply sdone_fwd; eauto.
+        -- destruct (Nat.eq_dec t1 t) as [->|Hne].
+           ++ rewrite Hn in Hn1. injection Hn1 as <-. destruct (Hold _ Hp1) as (it & ->). cbn in Hrel. left. exists it.
+              apply pop_ready_inv in Hrel. destruct Hrel as (Hsl & -> & _). apply nth_error_set_nth_eq. eapply nth_error_lt; eauto.
+           ++ right. exists t1, th1. rewrite Ht, nth_error_set_nth_neq; auto.
+      * right. exists t, th'. split; [rewrite Ht; apply nth_error_set_nth_eq; auto | apply Htake; auto].
+    + intros r it Hd. destruct (sdone_bwd _ _ _ _ _ Hrel Hd) as [Hd0| ->].
+      * pose proof (tk_done _ IH _ _ Hd0). rewrite Hnp. destruct o; lia.
+      * destruct (Hpopf _ _ eq_refl) as [Hp _]. pose proof (tk_wait _ IH _ _ _ Hn Hp). rewrite Hnp. lia.
+    + intros (t1 & th1 & Hn1 & Hp1). rewrite Ht in Hn1. apply nth_error_set_nth in Hn1. destruct Hn1 as [[-> ->]|[Hne Hn1]].
+      * destruct (Hexit Hp1) as (it & Hst & [(q & ->)|(k & q' & Htp)]).
+        -- cbn in Hrel. apply pop_ready_inv in Hrel. destruct Hrel as (Hsl & E & _). exists q, it. split; auto.
+           rewrite E. apply nth_error_set_nth_eq. eapply nth_error_lt; eauto.
+        -- exfalso. destruct (try_pop_funs _ _ _ Htp (lq_of_funs _ _ Hfuns)) as [(id & ->) _]. discriminate.
+      * destruct (tk_exit _ IH) as (r & it & Hd & Hst); eauto. exists r, it. split; auto. eapply sdone_fwd; eauto.
+Qed.
+
 (* ======================================================================================== *)
 (* what is proved of "stop() drains" (see Properties_C07.v for the part that is not)          *)
 Lemma ex_stop_returns_after_exit : forall c progs s, Reach c progs s -> stop_returned s = true ->
@@ -491,6 +852,705 @@ Proof.
   intros c progs s Hr Hret. split.
   - apply (proj2 (ex_joined _ _ _ Hr) Hret).
   - apply (ex_bal_exited _ _ _ Hr). left. exact Hret.
+Qed.
+
+
+(* ======================================================================================== *)
+(* where an accepted task is until it has finished                                            *)
+Definition full_id (x : slot) : list nat := match x with SFull (IFun id) => [id] | _ => [] end.
+Definition full_ids (q : queue) : list nat := flat_map full_id (slots q).
+Definition live_id (x : slot) : list nat := match x with SPend (IFun id) | SFull (IFun id) => [id] | _ => [] end.
+Fixpoint safe_ids (l : list slot) : list nat :=
+  match l with
+  | [] => []
+  | x :: r => if is_stop (slot_item x) then [] else live_id x ++ safe_ids r
+  end.
+Definition H_ids (s : st) : list nat := flat_map (fun th => held_ids (tpc th)) (threads s).
+Definition L_ids (s : st) : list nat := flat_map full_ids (lqs s).
+Definition P_ids (s : st) : list nat := flat_map (fun th => pend (tpc th)) (threads s).
+Definition tracked (s : st) (id : nat) : Prop :=
+  In id (acc_before s) \/ In id (acc_local s) \/ (stop_called s = false /\ In id (P_ids s)).
+Definition located (s : st) (id : nat) : Prop :=
+  In id (finished s) \/ In id (H_ids s) \/ In id (L_ids s) \/ In id (safe_ids (slots (gq s))).
+
+Lemma in_fm_set_nth_old : forall A (f : A -> list nat) l t x y id, nth_error l t = Some x ->
+  In id (flat_map f l) -> In id (f x) \/ In id (flat_map f (set_nth t y l)).
+Proof.
+  intros A f l t x y id Hn H. apply in_flat_map in H. destruct H as (z & Hz & Hid).
+  apply In_nth_error in Hz. destruct Hz as (i & Hi). destruct (Nat.eq_dec t i) as [->|Hne].
+  - left. congruence.
+  - right. apply in_flat_map. exists z. split; auto. eapply nth_error_In. rewrite nth_error_set_nth_neq; eauto.
+Qed.
+Lemma in_fm_set_nth_new : forall A (f : A -> list nat) l t y id, t < length l -> In id (f y) -> In id (flat_map f (set_nth t y l)).
+Proof.
+  intros A f l t y id Hlt H. apply in_flat_map. exists y. split; auto. eapply nth_error_In. apply nth_error_set_nth_eq. auto.
+Qed.
+Lemma in_fm_set_nth_inv : forall A (f : A -> list nat) l t y id, In id (flat_map f (set_nth t y l)) -> In id (f y) \/ In id (flat_map f l).
+Proof.
+  intros A f l t y id H. apply in_flat_map in H. destruct H as (z & Hz & Hid). apply In_set_nth in Hz.
+  destruct Hz as [->|Hz]; auto. right. apply in_flat_map. eauto.
+Qed.
+Lemma set_nth_oob : forall A (l : list A) k x, length l <= k -> set_nth k x l = l.
+Proof. induction l as [|y l IH]; intros [|k] x H; cbn in *; auto; try lia. rewrite IH; auto. lia. Qed.
+Lemma lq_of_nth_error : forall s k, k < length (lqs s) -> nth_error (lqs s) k = Some (lq_of s k).
+Proof. intros s k H. unfold lq_of. apply nth_error_nth'. auto. Qed.
+
+Lemma safe_app_old : forall l r id, In id (safe_ids l) -> In id (safe_ids (l ++ r)).
+Proof.
+  induction l as [|x l IH]; intros r id H; cbn in *; [destruct H|].
+  destruct (is_stop (slot_item x)); auto. apply in_app_or in H. apply in_or_app. destruct H; auto.
+Qed.
+Lemma safe_app_new : forall q id, nostop q = true -> In id (safe_ids (slots q ++ [SPend (IFun id)])).
+Proof.
+  intros [l n] id. unfold nostop, items; cbn. induction l as [|x l IH]; cbn; intros H; auto.
+  apply andb_prop in H. destruct H as [H1 H2]. apply negb_true_iff in H1. rewrite H1. apply in_or_app. auto.
+Qed.
+Lemma safe_set_nth : forall (Q : Prop) l p x y id, nth_error l p = Some x -> slot_item y = slot_item x ->
+  (In id (live_id x) -> In id (live_id y) \/ Q) -> In id (safe_ids l) -> In id (safe_ids (set_nth p y l)) \/ Q.
+Proof.
+  intros Q. induction l as [|z l IH]; intros [|p] x y id Hn Hit Hl H; cbn in *; try discriminate.
+  - injection Hn as ->. rewrite Hit. destruct (is_stop (slot_item x)); [destruct H|].
+    apply in_app_or in H. destruct H as [H|H]; [destruct (Hl H); auto|]; left; apply in_or_app; auto.
+  - destruct (is_stop (slot_item z)); [destruct H|]. apply in_app_or in H. destruct H as [H|H].
+    + left. apply in_or_app. auto.
+    + destruct (IH _ _ _ _ Hn Hit Hl H); auto. left. apply in_or_app. auto.
+Qed.
+Lemma safe_inv : forall l id, In id (safe_ids l) ->
+  exists p x, nth_error l p = Some x /\ In id (live_id x) /\
+              forall r y, r < p -> nth_error l r = Some y -> is_stop (slot_item y) = false.
+Proof.
+  induction l as [|z l IH]; intros id H; cbn in H; [destruct H|].
+  destruct (is_stop (slot_item z)) eqn:E; [destruct H|]. apply in_app_or in H. destruct H as [H|H].
+  - exists 0, z. split; [reflexivity|]. split; auto. intros r y Hr. lia.
+  - destruct (IH _ H) as (p & x & Hn & Hl & Hb). exists (S p), x. split; auto. split; auto.
+    intros [|r] y Hr Hy; cbn in Hy; [congruence|]. eapply Hb; eauto. lia.
+Qed.
+
+Lemma try_pop_full : forall q it q' id, try_pop q = Some (it, q') -> In id (full_ids q) -> In id (full_ids q') \/ it = IFun id.
+Proof.
+  intros q it q' id H Hin. unfold try_pop in H. destruct (nth_error (slots q) (npop q)) as [[x|x|x]|] eqn:E; try discriminate.
+  injection H as <- <-. unfold full_ids in *; cbn. destruct (in_fm_set_nth_old _ full_id _ _ _ (SDone x) _ E Hin) as [H|H]; auto.
+  right. destruct x; cbn in H; [destruct H as [->|[]]; auto | destruct H].
+Qed.
+Lemma local_push_full : forall q id id', In id (full_ids q) \/ id = id' -> In id (full_ids (local_push q (IFun id'))).
+Proof. intros q id id' H. unfold full_ids; cbn. rewrite flat_map_app. apply in_or_app. cbn. destruct H; auto. Qed.
+
+(* every tracked task (accepted before stop() was called, pushed to a local queue, or holding a global ticket
+   while stop() has not been called) is finished, held by a worker or the balance thread, in a local queue, or
+   in the global queue ahead of every STOP marker *)
+Lemma ex_located : forall c progs s, Reach c progs s -> forall id, tracked s id -> located s id.
+Proof.
+  intros c progs. apply (reach_ind c progs (fun s => forall id, tracked s id -> located s id)).
+  - intros id [H|[H|[_ H]]]; try (cbn in H; destruct H; fail).
+    exfalso. unfold P_ids in H. apply in_flat_map in H. destruct H as (th & Hth & Hin).
+    apply init_threads_in in Hth. destruct Hth as [[_ E]|[(w & _ & E)|[_ E]]]; rewrite E in Hin; destruct Hin.
+  - intros s t s' Hr IH Hs id Htr.
+    pose proof (layout_reach _ _ _ Hr) as Hlay.
+    destruct (step_gq _ _ _ _ Hs) as (th & th' & og & Hn & Ht & Hgrel & _ & _ & Hpopf & _ & _ & _).
+    destruct (step_lq _ _ _ _ Hs) as (th1 & th1' & ol & Hn1 & Ht1 & Hlrel & Hlpop & Hlpush & _).
+    destruct (step_held _ _ _ _ Hs) as (th2 & th2' & Hn2 & Ht2 & Hheld & Hfin & Hab & Hal & Hpe & Hsc).
+    same_threads.
+    assert (Hlt : t < length (threads s)) by (eapply nth_error_lt; eauto).
+    assert (Hnewheld : forall i, In i (held_ids (tpc th')) -> located s' i).
+    { intros i Hi. right. left. unfold H_ids. rewrite Ht. apply in_fm_set_nth_new; auto. }
+    assert (HthP : forall i, In i (pend (tpc th)) -> In i (P_ids s)).
+    { intros i Hi. unfold P_ids. apply in_flat_map. exists th. split; auto. eapply nth_error_In; eauto. }
+    assert (Hcases : tracked s id \/
+                     (exists w, trole th = RWorker w /\ lqs s' = set_nth w (local_push (lq_of s w) (IFun id)) (lqs s)) \/
+                     (stop_called s' = false /\ gq s' = app_slot (gq s) (IFun id))).
+    { destruct Htr as [H|[H|[Hc H]]].
+      - destruct (Hab _ H) as [X|[[X1 X2]|X]]; auto.
+        + left. left. exact X.
+        + left. right. right. auto.
+      - destruct (Hal _ H) as [X|X]; auto. left. right. left. exact X.
+      - unfold P_ids in H. rewrite Ht in H. apply in_fm_set_nth_inv in H. destruct H as [H|H].
+        + destruct (Hpe _ H) as [X|X]; auto. left. right. right. auto.
+        + left. right. right. auto. }
+    destruct Hcases as [Hold|[(w & Hrw & Hl)|[Hc Hg]]].
+    2: { right. right. left. unfold L_ids. rewrite Hl.
+         pose proof (role_at _ _ _ _ _ Hlay Hn) as R. rewrite Hrw in R. destruct Hlay as (_ & _ & Hlen).
+         apply in_fm_set_nth_new; [lia|]. apply local_push_full. auto. }
+    2: { right. right. right. rewrite Hg. cbn. apply safe_app_new. eapply ex_nostop_before_stop; eauto. }
+    destruct (IH _ Hold) as [Hf|[Hh|[Hl|Hg]]].
+    + left. auto.
+    + unfold H_ids in Hh. destruct (in_fm_set_nth_old _ (fun th => held_ids (tpc th)) _ _ _ th' _ Hn Hh) as [Hx|Hx].
+      * destruct (Hheld _ Hx) as [Y|[Y|(k & Hpc & Hg)]]; [auto | left; auto |].
+        right. right. right. rewrite Hg. cbn. apply safe_app_new.
+        pose proof (ex_role_pc _ _ _ Hr _ _ Hn) as Rp. rewrite Hpc in Rp.
+        eapply ex_nostop_while_balancing; eauto; [destruct (trole th); try discriminate; reflexivity | congruence].
+      * right. left. unfold H_ids. rewrite Ht. exact Hx.
+    + unfold L_ids in Hl. apply in_flat_map in Hl. destruct Hl as (q0 & Hq0 & Hid).
+      apply In_nth_error in Hq0. destruct Hq0 as (k0 & Hk0).
+      assert (Hq0eq : lq_of s k0 = q0) by (unfold lq_of; eapply nth_error_nth; eauto).
+      pose proof (nth_error_lt _ _ _ _ Hk0) as Hk0lt.
+      destruct ol as [|k it q'|w id']; cbn in Hlrel.
+      * right. right. left. unfold L_ids. rewrite Hlrel. apply in_flat_map. exists q0. split; auto. eapply nth_error_In; eauto.
+      * destruct Hlrel as [Hp Hl']. destruct (Nat.eq_dec k k0) as [->|Hne].
+        -- rewrite Hq0eq in Hp. destruct (try_pop_full _ _ _ _ Hp Hid) as [X| ->].
+           ++ right. right. left. unfold L_ids. rewrite Hl'. apply in_fm_set_nth_new; auto.
+           ++ apply Hnewheld. destruct (Hlpop _ _ _ eq_refl) as [E|E]; rewrite E; [rewrite dispatch_fun|]; cbn; auto.
+        -- right. right. left. unfold L_ids. rewrite Hl'. apply in_flat_map. exists q0. split; auto.
+           eapply nth_error_In. rewrite nth_error_set_nth_neq; eauto.
+      * right. right. left. unfold L_ids. rewrite Hlrel. destruct (Nat.eq_dec w k0) as [->|Hne].
+        -- apply in_fm_set_nth_new; auto. apply local_push_full. rewrite Hq0eq. auto.
+        -- apply in_flat_map. exists q0. split; auto. eapply nth_error_In. rewrite nth_error_set_nth_neq; eauto.
+    + destruct og as [|x|p| |q x]; cbn in Hgrel.
+      * right. right. right. now rewrite Hgrel.
+      * right. right. right. rewrite Hgrel. cbn. apply safe_app_old. auto.
+      * right. right. right. rewrite Hgrel. destruct (fill_slots (gq s) p) as [->|(y & Hy & ->)]; auto.
+        assert (X : In id (safe_ids (set_nth p (SFull y) (slots (gq s)))) \/ False).
+        { apply (safe_set_nth False _ _ (SPend y) (SFull y) id Hy eq_refl); [intros Hin; left; exact Hin | exact Hg]. }
+        destruct X as [X|[]]. exact X.
+      * right. right. right. now rewrite Hgrel.
+      * apply pop_ready_inv in Hgrel. destruct Hgrel as (Hsl & Esl & _).
+        assert (X : In id (safe_ids (set_nth q (SDone x) (slots (gq s)))) \/ x = IFun id).
+        { apply (safe_set_nth (x = IFun id) _ _ (SFull x) (SDone x) id Hsl eq_refl); [|exact Hg].
+          intros Hin. right. destruct x; cbn in Hin; [destruct Hin as [->|[]]; auto | destruct Hin]. }
+        destruct X as [X|X].
+        -- right. right. right. now rewrite Esl.
+        -- subst x. apply Hnewheld. destruct (Hpopf _ _ eq_refl) as [_ E]. rewrite E, dispatch_fun. cbn. auto.
+Qed.
+
+(* ======================================================================================== *)
+(* stop() drains                                                                              *)
+Lemma returned_worker_exit : forall c progs s t th w, Reach c progs s -> stop_returned s = true ->
+  nth_error (threads s) t = Some th -> trole th = RWorker w -> tpc th = WExit.
+Proof.
+  intros c progs s t th w Hr Hret Hn Hrole. pose proof (layout_reach _ _ _ Hr) as Hlay.
+  pose proof (role_at _ _ _ _ _ Hlay Hn) as R. rewrite Hrole in R. destruct R as [-> Hw].
+  destruct (ex_stop_returns_after_exit _ _ _ Hr Hret) as [He _]. specialize (He _ Hw).
+  unfold worker_exited, pc_of, worker_tid in He. destruct Hlay as (_ & Hnx & _). rewrite Hnx, Hn in He. cbn in He. congruence.
+Qed.
+Lemma returned_worker_thread : forall c progs s w, Reach c progs s -> stop_returned s = true -> w < nworkers c ->
+  exists t th, nth_error (threads s) t = Some th /\ trole th = RWorker w /\ tpc th = WExit.
+Proof.
+  intros c progs s w Hr Hret Hw. pose proof (layout_reach _ _ _ Hr) as Hlay.
+  destruct (ex_stop_returns_after_exit _ _ _ Hr Hret) as [He _]. specialize (He _ Hw).
+  unfold worker_exited, pc_of, worker_tid in He. destruct (nth_error (threads s) (nex s + w)) as [th|] eqn:Hn; [|discriminate].
+  cbn in He. exists (nex s + w), th. split; auto. split; [|congruence].
+  pose proof (role_at _ _ _ _ _ Hlay Hn) as R. destruct Hlay as (_ & Hnx & _). rewrite Hnx in R.
+  destruct (trole th) as [|w'|]; [lia | f_equal; lia | lia].
+Qed.
+
+Lemma ex_stop_drains : forall c progs s, 1 <= nworkers c -> Reach c progs s -> stop_returned s = true ->
+  forall id, In id (acc_before s) \/ In id (acc_local s) -> In id (finished s).
+Proof.
+  intros c progs s HN Hr Hret id Hin.
+  assert (Htr : tracked s id) by (destruct Hin; [left|right; left]; auto).
+  destruct (ex_located _ _ _ Hr _ Htr) as [Hf|[Hh|[Hl|Hg]]]; auto; exfalso.
+  - unfold H_ids in Hh. apply in_flat_map in Hh. destruct Hh as (th & Hth & Hid).
+    apply In_nth_error in Hth. destruct Hth as (t & Hn).
+    pose proof (ex_role_pc _ _ _ Hr _ _ Hn) as Rp. destruct (trole th) as [|w|] eqn:Erole.
+    + destruct (tpc th); cbn in *; try discriminate; try contradiction.
+    + rewrite (returned_worker_exit _ _ _ _ _ _ Hr Hret Hn Erole) in Hid. destruct Hid.
+    + destruct (ex_stop_returns_after_exit _ _ _ Hr Hret) as [_ Hb]. rewrite (Hb _ _ Hn Erole) in Hid. destruct Hid.
+  - unfold L_ids in Hl. apply in_flat_map in Hl. destruct Hl as (q0 & Hq0 & Hid).
+    apply In_nth_error in Hq0. destruct Hq0 as (w & Hw).
+    pose proof (nth_error_lt _ _ _ _ Hw) as Hwlt. pose proof (layout_reach _ _ _ Hr) as Hlay.
+    assert (Hwn : w < nworkers c) by (destruct Hlay as (_ & _ & <-); exact Hwlt).
+    destruct (returned_worker_thread _ _ _ _ Hr Hret Hwn) as (t & th & Hn & Hrole & Hpc).
+    assert (Hd : drained (lq_of s w)) by (eapply ex_quiet_drained; eauto; rewrite Hpc; reflexivity).
+    assert (Heq : lq_of s w = q0) by (unfold lq_of; eapply nth_error_nth; eauto).
+    rewrite Heq in Hd. unfold full_ids in Hid. apply in_flat_map in Hid. destruct Hid as (x & Hx & Hix).
+    apply In_nth_error in Hx. destruct Hx as (i & Hi).
+    destruct x as [y|y|y]; cbn in Hix; try contradiction.
+    assert (Hok : lq_ok q0) by (rewrite <- Heq; apply lq_of_ok; eapply ex_lq_ok; eauto).
+    eapply drained_no_full; eauto.
+  - destruct (safe_inv _ _ Hg) as (p & x & Hp & Hlive & Hbefore).
+    assert (H0 : 0 < nworkers c) by lia.
+    destruct (returned_worker_thread _ _ _ _ Hr Hret H0) as (t0 & th0 & Hn0 & _ & Hpc0).
+    pose proof (ex_tickets _ _ _ Hr) as TK.
+    destruct (tk_exit _ TK) as (r & it & Hd & Hst); [eauto|].
+    assert (Hpr : p < r).
+    { destruct (lt_eq_lt_dec r p) as [[Hlt|Heq]|Hgt]; auto; exfalso.
+      - pose proof (Hbefore _ _ Hlt Hd) as X. cbn in X. congruence.
+      - subst r. rewrite Hp in Hd. injection Hd as ->. destruct Hlive. }
+    pose proof (tk_done _ TK _ _ Hd) as Hrn.
+    destruct (tk_served _ TK p) as [(it' & Hd')|(t1 & th1 & Hn1 & Hp1)]; [lia| |].
+    + rewrite Hp in Hd'. injection Hd' as ->. destruct Hlive.
+    + pose proof (ex_role_pc _ _ _ Hr _ _ Hn1) as Rp. rewrite Hp1 in Rp.
+      destruct (trole th1) as [|w1|] eqn:E1; try discriminate.
+      rewrite (returned_worker_exit _ _ _ _ _ _ Hr Hret Hn1 E1) in Hp1. discriminate.
+Qed.
+
+
+(* ======================================================================================== *)
+(* token counting: every task id exists exactly as often as it is written in the programs and bodies *)
+Fixpoint cnt (id : nat) (l : list nat) : nat :=
+  match l with [] => 0 | x :: r => (if Nat.eqb x id then 1 else 0) + cnt id r end.
+Lemma cnt_app : forall id a b, cnt id (a ++ b) = cnt id a + cnt id b.
+Proof. induction a as [|x a IH]; intros b; cbn; auto. rewrite IH. lia. Qed.
+Lemma cnt_ins : forall id x l, cnt id (ins x l) = (if Nat.eqb x id then 1 else 0) + cnt id l.
+Proof. induction l as [|y l IH]; cbn; auto. destruct (x <=? y); cbn; auto. rewrite IH. lia. Qed.
+Lemma cnt_in : forall id l, In id l <-> 1 <= cnt id l.
+Proof.
+  induction l as [|x l IH]; cbn; [split; [tauto|lia]|]. destruct (Nat.eqb_spec x id); split; intros; auto; try lia.
+  - destruct H; [congruence|]. apply IH in H. lia.
+  - right. apply IH. lia.
+Qed.
+Lemma cnt_nodup : forall l, (forall id, cnt id l <= 1) -> NoDup l.
+Proof.
+  induction l as [|x l IH]; intros H; constructor.
+  - intros Hin. apply cnt_in in Hin. specialize (H x). cbn in H. rewrite Nat.eqb_refl in H. lia.
+  - apply IH. intros id. specialize (H id). cbn in H. lia.
+Qed.
+Lemma nodup_cnt : forall l id, NoDup l -> cnt id l <= 1.
+Proof.
+  induction l as [|x l IH]; intros id H; cbn; [lia|]. inversion H; subst. specialize (IH id H3).
+  destruct (Nat.eqb_spec x id); [|lia]. subst. assert (cnt id l = 0); [|lia].
+  destruct (cnt id l) eqn:E; auto. exfalso. apply H2. apply cnt_in. lia.
+Qed.
+Lemma cnt_fm_set_nth : forall A (f : A -> list nat) l t x y id, nth_error l t = Some x ->
+  cnt id (flat_map f (set_nth t y l)) + cnt id (f x) = cnt id (flat_map f l) + cnt id (f y).
+Proof.
+  induction l as [|z l IH]; intros [|t] x y id H; cbn in *; try discriminate.
+  - injection H as ->. rewrite !cnt_app. lia.
+  - rewrite !cnt_app. specialize (IH _ _ y id H). lia.
+Qed.
+Lemma cnt_fm_ge : forall A (f : A -> list nat) l t x id, nth_error l t = Some x -> cnt id (f x) <= cnt id (flat_map f l).
+Proof.
+  induction l as [|z l IH]; intros [|t] x id H; cbn in *; try discriminate; rewrite cnt_app.
+  - injection H as ->. lia.
+  - specialize (IH _ _ id H). lia.
+Qed.
+
+Definition op_ids (o : op) : list nat := match o with OSubmit id => [id] | _ => [] end.
+Definition sub_ids (ops : list op) : list nat := flat_map op_ids ops.
+Definition is_idle (p : pc) : bool := match p with EIdle => true | _ => false end.
+Definition pend_ops (th : thread) : list nat :=
+  sub_ids (skipn (if is_idle (tpc th) then opi th else S (opi th)) (prog th)).
+Definition pc_tok (p : pc) : list nat :=
+  match p with
+  | WBegin id => [id]
+  | WRun id rest => id :: rest
+  | WGTake id rest ch => id :: ch :: rest
+  | WFill id rest _ _ => id :: rest
+  | BTake _ (IFun id) => [id]
+  | _ => []
+  end.
+Definition thr_tok (th : thread) : list nat := pend_ops th ++ pc_tok (tpc th).
+Definition q_tok (q : queue) : list nat := flat_map live_id (slots q).
+Definition rest_tok (s : st) (x : nat) : nat :=
+  cnt x (q_tok (gq s)) + cnt x (flat_map q_tok (lqs s)) + cnt x (finished s).
+
+Lemma skipn_nth : forall A (l : list A) n x, nth_error l n = Some x -> skipn n l = x :: skipn (S n) l.
+Proof. induction l as [|y l IH]; intros [|n] x H; cbn in *; try discriminate; [congruence|]. now apply IH. Qed.
+Lemma pc_tok_dispatch : forall it x, cnt x (pc_tok (dispatch it)) = cnt x (live_id (SFull it)).
+Proof. intros it x. destruct it as [id|c]; [reflexivity|]. unfold dispatch. cbn [item_code]. destruct (_ =? _)%Z; [reflexivity|]. destruct (_ =? _)%Z; reflexivity. Qed.
+Lemma q_tok_app : forall g it x, cnt x (q_tok (app_slot g it)) = cnt x (q_tok g) + cnt x (live_id (SPend it)).
+Proof. intros. unfold q_tok, app_slot; cbn. rewrite flat_map_app, cnt_app. cbn. now rewrite app_nil_r. Qed.
+Lemma q_tok_fill : forall g p x, cnt x (q_tok (fill g p)) = cnt x (q_tok g).
+Proof.
+  intros g p x. unfold q_tok. destruct (fill_slots g p) as [->|(y & Hy & ->)]; auto.
+  pose proof (cnt_fm_set_nth _ live_id _ _ _ (SFull y) x Hy) as H. destruct y; cbn in H; lia.
+Qed.
+Lemma q_tok_pop : forall g q it g' x, pop_ready g q = Some (it, g') -> cnt x (q_tok g') + cnt x (live_id (SFull it)) = cnt x (q_tok g).
+Proof.
+  intros g q it g' x H. apply pop_ready_inv in H. destruct H as (Hs & E & _). unfold q_tok. rewrite E.
+  pose proof (cnt_fm_set_nth _ live_id _ _ _ (SDone it) x Hs) as H. destruct it; cbn in H; cbn; lia.
+Qed.
+Lemma q_tok_try_pop : forall q it q' x, try_pop q = Some (it, q') -> cnt x (q_tok q') + cnt x (live_id (SFull it)) = cnt x (q_tok q).
+Proof.
+  intros q it q' x H. unfold try_pop in H. destruct (nth_error (slots q) (npop q)) as [[y|y|y]|] eqn:E; try discriminate.
+  injection H as <- <-. unfold q_tok; cbn [slots].
+  pose proof (cnt_fm_set_nth _ live_id _ _ _ (SDone y) x E) as H. destruct y; cbn in H; cbn; lia.
+Qed.
+Lemma lqs_tok_pop : forall s k it q' x, try_pop (lq_of s k) = Some (it, q') ->
+  cnt x (flat_map q_tok (set_nth k q' (lqs s))) + cnt x (live_id (SFull it)) = cnt x (flat_map q_tok (lqs s)).
+Proof.
+  intros s k it q' x H. destruct (lt_dec k (length (lqs s))) as [Hlt|Hge].
+  - pose proof (cnt_fm_set_nth _ q_tok _ _ _ q' x (lq_of_nth_error _ _ Hlt)) as A.
+    pose proof (q_tok_try_pop _ _ _ x H). lia.
+  - exfalso. unfold lq_of in H. rewrite nth_overflow in H by lia. discriminate.
+Qed.
+Lemma lqs_tok_push : forall s w id x, w < length (lqs s) ->
+  cnt x (flat_map q_tok (set_nth w (local_push (lq_of s w) (IFun id)) (lqs s))) = cnt x (flat_map q_tok (lqs s)) + cnt x [id].
+Proof.
+  intros s w id x Hlt. pose proof (cnt_fm_set_nth _ q_tok _ _ _ (local_push (lq_of s w) (IFun id)) x (lq_of_nth_error _ _ Hlt)) as A.
+  unfold q_tok at 4 in A. cbn [local_push slots] in A. rewrite flat_map_app, cnt_app in A. cbn [flat_map live_id app] in A.
+  unfold q_tok at 2 in A. lia.
+Qed.
+
+Definition run_id (p : pc) : list nat :=
+  match p with WRun id _ | WGTake id _ _ | WFill id _ _ _ => [id] | _ => [] end.
+
+Lemma run_id_dispatch : forall it, run_id (dispatch it) = [].
+Proof. intros it. unfold dispatch. destruct (_ =? _)%Z; [destruct it; reflexivity|]. destruct (_ =? _)%Z; reflexivity. Qed.
+
+Lemma is_idle_dispatch : forall it, is_idle (dispatch it) = false.
+Proof. intros it. unfold dispatch. destruct (_ =? _)%Z; [destruct it; reflexivity|]. destruct (_ =? _)%Z; reflexivity. Qed.
+
+Lemma step_tokens : forall c s t s',
+  (forall t th w, nth_error (threads s) t = Some th -> trole th = RWorker w -> w < length (lqs s)) ->
+  step c s t = Some s' ->
+  exists th th', nth_error (threads s) t = Some th /\ threads s' = set_nth t th' (threads s) /\
+   ((started s' = started s /\ forall x, cnt x (thr_tok th') + rest_tok s' x = cnt x (thr_tok th) + rest_tok s x) \/
+    (exists id w, tpc th = WBegin id /\ started s' = started s ++ [(id, w)] /\ In id (run_id (tpc th')) /\
+        forall x, cnt x (thr_tok th') + rest_tok s' x = cnt x (thr_tok th) + rest_tok s x + cnt x (body_of c id))) /\
+   (forall id, In id (run_id (tpc th')) -> In id (run_id (tpc th)) \/ tpc th = WBegin id) /\
+   (forall id, In id (run_id (tpc th)) -> In id (run_id (tpc th')) \/ In id (finished s')).
+Proof.
+  intros c s t s' Hw H. destr_step H; kill_gen; simp_st;
+    unfold stop_loop, after_steal, after_sweep;
+    repeat match goal with |- context [if ?b then _ else _] => destruct b eqn:? end;
+    eexists; eexists;
+    (split; [reflexivity|]; split; [reflexivity|]);
+    repeat match goal with it : item |- _ => destruct it end;
+    (split; [ first [ left; split; [reflexivity|] | right; eexists; eexists; split; [eassumption|]; split; [reflexivity|]; split; [left; reflexivity|] ];
+              intros x; unfold thr_tok, pend_ops, rest_tok, sub_ids; simp_st;
+              cbn [tpc opi prog goto next_op trole note_accept finished gq lqs];
+              repeat match goal with H : tpc _ = _ |- _ => rewrite H end;
+              cbn [is_idle pc_tok];
+              try match goal with H : nth_error (prog _) (opi _) = Some _ |- _ => rewrite (skipn_nth _ _ _ _ H) end;
+              cbn [flat_map op_ids app];
+              rewrite ?q_tok_fill, ?pc_tok_dispatch;
+              try match goal with E : pop_ready _ _ = Some _ |- _ => pose proof (q_tok_pop _ _ _ _ x E) end;
+              try match goal with E : try_pop (lq_of _ _) = Some _ |- _ => pose proof (lqs_tok_pop _ _ _ _ x E) end;
+              try (rewrite lqs_tok_push by (eapply Hw; eauto));
+              unfold q_tok in *; cbn [slots] in *;
+              rewrite ?flat_map_app, ?cnt_app, ?cnt_ins;
+              cbn [flat_map live_id app cnt pc_tok] in *; rewrite ?cnt_app, ?pc_tok_dispatch, ?is_idle_dispatch; cbn [cnt live_id]; try lia
+            | split; intros ix Hix; simp_st; cbn [tpc goto next_op note_accept finished] in *;
+              repeat match goal with H : tpc _ = _ |- _ => rewrite H in * end;
+              rewrite ?run_id_dispatch in *; cbn [run_id In] in *; rewrite ?In_ins;
+              repeat match goal with H : _ \/ False |- _ => destruct H as [H|[]] | H : False |- _ => destruct H end;
+              subst; auto 6 ]).
+Qed.
+
+
+
+Lemma cnt_fm_ge2 : forall A (f : A -> list nat) l t1 t2 x y id, t1 <> t2 -> nth_error l t1 = Some x -> nth_error l t2 = Some y ->
+  cnt id (f x) + cnt id (f y) <= cnt id (flat_map f l).
+Proof.
+  induction l as [|z l IH]; intros [|t1] [|t2] x y id Hne H1 H2; cbn in *; try discriminate; try congruence; rewrite cnt_app.
+  - injection H1 as ->. pose proof (cnt_fm_ge _ f _ _ _ id H2). lia.
+  - injection H2 as ->. pose proof (cnt_fm_ge _ f _ _ _ id H1). lia.
+  - assert (t1 <> t2) by congruence. specialize (IH _ _ _ _ id H H1 H2). lia.
+Qed.
+Lemma run_id_tok : forall p id, In id (run_id p) -> 1 <= cnt id (pc_tok p).
+Proof. intros p id H. destruct p; cbn in H; try contradiction; destruct H as [->|[]]; cbn; rewrite Nat.eqb_refl; lia. Qed.
+Lemma nodup_snoc : forall (l : list nat) a, NoDup l -> ~ In a l -> NoDup (l ++ [a]).
+Proof.
+  induction l as [|x l IH]; intros a Hn Hi; cbn; [constructor; auto; constructor|].
+  inversion Hn; subst. constructor.
+  - intros H. apply in_app_or in H. destruct H as [H|[H|[]]]; auto. subst. apply Hi. left. reflexivity.
+  - apply IH; auto. intros H. apply Hi. right. exact H.
+Qed.
+
+(* the table of bodies whose task has not started yet *)
+Definition memb (p : nat) (L : list nat) : bool := existsb (Nat.eqb p) L.
+Definition tbl (c : config) (L : list nat) : list nat :=
+  flat_map (fun p => if memb p L then [] else nth p (bodies c) []) (seq 0 (length (bodies c))).
+Lemma memb_false : forall p L, ~ In p L -> memb p L = false.
+Proof.
+  intros p L H. unfold memb. destruct (existsb (Nat.eqb p) L) eqn:E; auto. exfalso. apply existsb_exists in E.
+  destruct E as (y & Hy & Heq). apply Nat.eqb_eq in Heq. subst. auto.
+Qed.
+Lemma fm_change : forall (l : list nat) (f g : nat -> list nat) id0 x, NoDup l ->
+  (forall p, p <> id0 -> g p = f p) -> g id0 = [] ->
+  (In id0 l -> cnt x (flat_map g l) + cnt x (f id0) = cnt x (flat_map f l)) /\
+  (~ In id0 l -> cnt x (flat_map g l) = cnt x (flat_map f l)).
+Proof.
+  induction l as [|a l IH]; intros f g id0 x Hnd Hne H0; cbn; [split; [tauto|auto]|].
+  inversion Hnd as [|? ? H1 H2]; subst. destruct (IH f g id0 x H2 Hne H0) as [IH1 IH2]. rewrite !cnt_app.
+  destruct (Nat.eq_dec a id0) as [->|Ha].
+  - split; [|intros H; exfalso; apply H; auto]. intros _. rewrite H0. cbn. rewrite (IH2 H1). lia.
+  - rewrite (Hne _ Ha). split.
+    + intros [H|H]; [congruence|]. specialize (IH1 H). lia.
+    + intros H. rewrite IH2; auto.
+Qed.
+Lemma tbl_start : forall c L id0 x, ~ In id0 L -> cnt x (tbl c (L ++ [id0])) + cnt x (body_of c id0) = cnt x (tbl c L).
+Proof.
+  intros c L id0 x Hni. unfold tbl.
+  destruct (fm_change (seq 0 (length (bodies c))) (fun p => if memb p L then [] else nth p (bodies c) [])
+              (fun p => if memb p (L ++ [id0]) then [] else nth p (bodies c) []) id0 x (seq_NoDup _ _)) as [A B].
+  - intros p Hp. unfold memb. rewrite existsb_app. cbn. apply Nat.eqb_neq in Hp. rewrite Hp. now rewrite !orb_false_r.
+  - unfold memb. rewrite existsb_app. cbn. rewrite Nat.eqb_refl. now rewrite orb_true_r.
+  - cbn beta in A. rewrite (memb_false _ _ Hni) in A. unfold body_of.
+    destruct (lt_dec id0 (length (bodies c))) as [Hlt|Hge].
+    + apply A. apply in_seq. lia.
+    + rewrite nth_overflow by lia. cbn. rewrite B; [lia|]. rewrite in_seq. lia.
+Qed.
+
+Definition total (c : config) (s : st) (x : nat) : nat :=
+  cnt x (flat_map thr_tok (threads s)) + rest_tok s x + cnt x (tbl c (map fst (started s))).
+Definition runs_ids (s : st) : list nat := flat_map (fun th => run_id (tpc th)) (threads s).
+
+Record CntInv (c : config) (progs : list (list op)) (s : st) : Prop := {
+  ci_total : forall x, total c s x = total c (init c progs) x;
+  ci_run : forall id, In id (map fst (started s)) -> In id (finished s) \/ In id (runs_ids s);
+  ci_nodup : NoDup (map fst (started s))
+}.
+
+Lemma ex_counts : forall c progs, (forall x, total c (init c progs) x <= 1) ->
+  forall s, Reach c progs s -> CntInv c progs s.
+Proof.
+  intros c progs Hwf. apply (reach_ind c progs (CntInv c progs)).
+  - constructor; [reflexivity | cbn; intros ? [] | cbn; constructor].
+  - intros s t s' Hr IH Hs. pose proof (layout_reach _ _ _ Hr) as Hlay.
+    assert (Hw : forall t th w, nth_error (threads s) t = Some th -> trole th = RWorker w -> w < length (lqs s)).
+    { intros t0 th0 w Hn0 Hrole. pose proof (role_at _ _ _ _ _ Hlay Hn0) as R. rewrite Hrole in R.
+      destruct Hlay as (_ & _ & ->). tauto. }
+    destruct (step_tokens _ _ _ _ Hw Hs) as (th & th' & Hn & Ht & Hcase & Hrun1 & Hrun2).
+    destruct (step_held _ _ _ _ Hs) as (th2 & th2' & Hn2 & Ht2 & _ & Hfin & _).
+    same_threads.
+    assert (Hlt : t < length (threads s)) by (eapply nth_error_lt; eauto).
+    assert (Hthr : forall x, cnt x (flat_map thr_tok (threads s')) + cnt x (thr_tok th) =
+                             cnt x (flat_map thr_tok (threads s)) + cnt x (thr_tok th')).
+    { intros x. rewrite Ht. apply cnt_fm_set_nth. exact Hn. }
+    assert (Hrunold : forall id, In id (finished s) \/ In id (runs_ids s) -> In id (finished s') \/ In id (runs_ids s')).
+    { intros id [H|H]; [left; auto|]. unfold runs_ids in *.
+      destruct (in_fm_set_nth_old _ (fun th => run_id (tpc th)) _ _ _ th' _ Hn H) as [X|X].
+      - destruct (Hrun2 _ X) as [Y|Y]; auto. right. rewrite Ht. apply in_fm_set_nth_new; auto.
+      - right. rewrite Ht. exact X. }
+    destruct Hcase as [[Hst Heq]|(id & w & Hpc & Hst & Hrn & Heq)].
+    + constructor.
+      * intros x. rewrite <- (ci_total _ _ _ IH x). unfold total. rewrite Hst. specialize (Heq x). specialize (Hthr x). lia.
+      * rewrite Hst. intros id Hin. apply Hrunold. apply (ci_run _ _ _ IH); auto.
+      * rewrite Hst. apply (ci_nodup _ _ _ IH).
+    + assert (Hfresh : ~ In id (map fst (started s))).
+      { intros Hin. pose proof (ci_total _ _ _ IH id) as Htot. specialize (Hwf id). rewrite <- Htot in Hwf. clear Htot. unfold total in Hwf.
+        assert (H1 : 1 <= cnt id (thr_tok th)).
+        { unfold thr_tok. rewrite cnt_app, Hpc. cbn. rewrite Nat.eqb_refl. lia. }
+        destruct (ci_run _ _ _ IH _ Hin) as [Hf|Hrn0].
+        - apply cnt_in in Hf. pose proof (cnt_fm_ge _ thr_tok _ _ _ id Hn). unfold rest_tok in Hwf. lia.
+        - unfold runs_ids in Hrn0. apply in_flat_map in Hrn0. destruct Hrn0 as (th1 & Hth1 & Hid1).
+          apply In_nth_error in Hth1. destruct Hth1 as (t1 & Hn1).
+          assert (t1 <> t). { intros ->. rewrite Hn in Hn1. injection Hn1 as <-. rewrite Hpc in Hid1. destruct Hid1. }
+          assert (H2 : 1 <= cnt id (thr_tok th1)). { unfold thr_tok. rewrite cnt_app. pose proof (run_id_tok _ _ Hid1). lia. }
+          pose proof (cnt_fm_ge2 _ thr_tok _ _ _ _ _ id H Hn1 Hn). lia. }
+      constructor.
+      * intros x. rewrite <- (ci_total _ _ _ IH x). unfold total. rewrite Hst, map_app. cbn [map fst].
+        pose proof (tbl_start c _ _ x Hfresh). specialize (Heq x). specialize (Hthr x). lia.
+      * rewrite Hst, map_app. cbn [map fst]. intros id0 Hin. apply in_app_or in Hin. destruct Hin as [Hin|[<-|[]]].
+        -- apply Hrunold. apply (ci_run _ _ _ IH); auto.
+        -- right. unfold runs_ids. rewrite Ht. apply in_fm_set_nth_new; auto.
+      * rewrite Hst, map_app. cbn [map fst]. apply nodup_snoc; auto. apply (ci_nodup _ _ _ IH).
+Qed.
+
+(* the initial token count is the number of places the id is written at *)
+Definition submit_ids (progs : list (list op)) : list nat := flat_map sub_ids progs.
+
+Lemma fm_nth_seq_gen : forall (l : list (list nat)) k, flat_map (fun p => nth (p - k) l []) (seq k (length l)) = concat l.
+Proof.
+  induction l as [|a l IH]; intros k; cbn; auto. rewrite Nat.sub_diag. f_equal. rewrite <- (IH (S k)).
+  rewrite !flat_map_concat_map. f_equal. apply map_ext_in. intros p Hp. apply in_seq in Hp.
+  replace (p - k) with (S (p - S k)) by lia. reflexivity.
+Qed.
+Lemma tbl_init : forall c, tbl c [] = concat (bodies c).
+Proof.
+  intros c. unfold tbl. cbn [memb existsb]. rewrite <- (fm_nth_seq_gen (bodies c) 0).
+  apply flat_map_ext. intros p. now rewrite Nat.sub_0_r.
+Qed.
+Lemma total_init : forall c progs x, total c (init c progs) x = cnt x (submit_ids progs ++ concat (bodies c)).
+Proof.
+  intros c progs x. unfold total, rest_tok. cbn [init threads gq lqs finished started map]. rewrite tbl_init, cnt_app.
+  assert (A : cnt x (flat_map q_tok (repeat empty_queue (nworkers c))) = 0) by (induction (nworkers c); cbn; auto).
+  rewrite A. rewrite !flat_map_app, !cnt_app.
+  assert (B : cnt x (flat_map thr_tok (map mk_ext progs)) = cnt x (submit_ids progs)).
+  { unfold submit_ids. induction progs as [|p progs IH]; cbn; auto. rewrite !cnt_app, IH.
+    unfold thr_tok, pend_ops, sub_ids. cbn. rewrite ?cnt_app. cbn. lia. }
+  assert (C : forall l, cnt x (flat_map thr_tok (map mk_worker l)) = 0) by (induction l; cbn; auto).
+  assert (D : cnt x (flat_map thr_tok (if has_balancer c then [mk_bal] else [])) = 0) by (destruct (has_balancer c); reflexivity).
+  rewrite B, C, D. cbn. lia.
+Qed.
+
+Lemma ex_nodup_started : forall c progs s, NoDup (submit_ids progs ++ concat (bodies c)) -> Reach c progs s ->
+  NoDup (map fst (started s)).
+Proof.
+  intros c progs s Hwf Hr. eapply ci_nodup. eapply ex_counts; eauto.
+  intros x. rewrite total_init. apply nodup_cnt. exact Hwf.
+Qed.
+
+
+(* ======================================================================================== *)
+(* only accepted tasks start                                                                  *)
+Definition ticket_of (p : pc) : option (nat * item) :=
+  match p with
+  | EFill p it => Some (p, it)
+  | EStopFill _ p => Some (p, IMark stop_marker_type)
+  | WFill _ _ p ch => Some (p, IFun ch)
+  | BFill _ p it => Some (p, it)
+  | _ => None
+  end.
+
+Lemma ticket_dispatch : forall it, ticket_of (dispatch it) = None.
+Proof. intros it. unfold dispatch. destruct (_ =? _)%Z; [destruct it; reflexivity|]. destruct (_ =? _)%Z; reflexivity. Qed.
+Lemma held_dispatch : forall it id, In id (held_ids (dispatch it)) -> it = IFun id.
+Proof.
+  intros it id. destruct it as [i|c]; [rewrite dispatch_fun; cbn; intros [->|[]]; reflexivity|].
+  rewrite held_dispatch_mark. intros [].
+Qed.
+
+Lemma step_acc : forall c s t s', step c s t = Some s' ->
+  exists th th' og ol, nth_error (threads s) t = Some th /\ threads s' = set_nth t th' (threads s) /\
+    gq_rel (gq s) (gq s') og /\ lq_rel s (lqs s') ol /\
+    (forall id, In id (accepted s) -> In id (accepted s')) /\
+    (forall p it, ticket_of (tpc th') = Some (p, it) -> ticket_of (tpc th) = Some (p, it) \/
+                  (og = GApp it /\ p = length (slots (gq s)))) /\
+    (forall p, og = GFill p -> exists it, ticket_of (tpc th) = Some (p, it) /\
+                  forall id, it = IFun id -> In id (accepted s') \/ exists k, tpc th = BFill k p it) /\
+    (forall w id, ol = LPush w id -> In id (accepted s')) /\
+    (forall id, In id (held_ids (tpc th')) -> In id (held_ids (tpc th)) \/ (exists q, og = GPop q (IFun id)) \/
+                  (exists k q', ol = LPop k (IFun id) q')) /\
+    (forall k p id, tpc th' = BFill k p (IFun id) -> tpc th = BTake k (IFun id)).
+Proof.
+  intros c s t s' H. destr_step H; kill_gen; simp_st;
+    unfold stop_loop, after_steal, after_sweep;
+    repeat match goal with |- context [if ?b then _ else _] => destruct b eqn:? end;
+    eexists; eexists;
+    (first [ exists GSame; eexists; split; [reflexivity|]; split; [reflexivity|]; split; [reflexivity|]
+           | eexists (GApp _); eexists; split; [reflexivity|]; split; [reflexivity|]; split; [reflexivity|]
+           | eexists (GFill _); eexists; split; [reflexivity|]; split; [reflexivity|]; split; [reflexivity|]
+           | exists GTake; eexists; split; [reflexivity|]; split; [reflexivity|]; split; [reflexivity|]
+           | eexists (GPop _ _); eexists; split; [reflexivity|]; split; [reflexivity|]; split; [eassumption|] ]);
+    (first [ instantiate (1 := LSame); split; [reflexivity|]
+           | instantiate (1 := LPop _ _ _); split; [split; [eassumption|reflexivity]|]
+           | instantiate (1 := LPush _ _); split; [reflexivity|] ]);
+    repeat match goal with it : item |- _ => destruct it end;
+    cbn [tpc trole goto next_op note_accept accepted];
+    repeat match goal with H : tpc _ = _ |- _ => rewrite H end;
+    rewrite ?ticket_dispatch;
+    repeat split; intros;
+    repeat match goal with
+           | H : GPop _ _ = GPop _ _ |- _ => injection H as ? ?; subst
+           | H : GApp _ = GApp _ |- _ => injection H as ?; subst
+           | H : GFill _ = GFill _ |- _ => injection H as ?; subst
+           | H : LPop _ _ _ = LPop _ _ _ |- _ => injection H as ? ? ?; subst
+           | H : LPush _ _ = LPush _ _ |- _ => injection H as ? ?; subst
+           | H : In _ (held_ids (dispatch _)) |- _ => apply held_dispatch in H; subst
+           | H : Some _ = Some _ |- _ => inversion H; subst; clear H
+           | H : IFun _ = IFun _ |- _ => injection H as ?; subst
+           | H : BFill _ _ _ = BFill _ _ _ |- _ => inversion H; subst; clear H
+           | H : dispatch ?i = BFill _ _ _ |- _ => exfalso; pose proof (dispatch_worker_pc 0 i) as X; rewrite H in X; discriminate
+           end;
+    cbn [ticket_of held_ids In] in *; rewrite ?In_ins;
+    repeat match goal with H : Some _ = Some _ |- _ => inversion H; subst; clear H end;
+    repeat match goal with
+           | H : False |- _ => destruct H
+           | H : _ \/ False |- _ => destruct H as [H|[]]
+           end;
+    subst; try discriminate; eauto 8;
+    try (eexists; split; [reflexivity|]; intros ? Hx; first [discriminate Hx | injection Hx as <-; left; apply In_ins; auto]).
+Qed.
+
+
+
+Lemma items_rel : forall g g' o, gq_rel g g' o -> items g' = items g \/ exists it, o = GApp it /\ items g' = items g ++ [it].
+Proof.
+  intros g g' [|it|p| |q it] H; cbn in H; subst; auto.
+  - right. exists it. split; auto. unfold items, app_slot; cbn. now rewrite map_app.
+  - left. apply items_fill.
+  - left. apply items_pop_ready in H. tauto.
+Qed.
+Lemma app_pend_inv : forall (l : list slot) x p y, nth_error (l ++ [SPend x]) p = Some y -> (forall z, y <> SPend z) ->
+  nth_error l p = Some y.
+Proof.
+  intros l x p y H Hy. destruct (lt_dec p (length l)) as [Hlt|Hge]; [now rewrite nth_error_app1 in H|].
+  rewrite nth_error_app2 in H by lia. destruct (p - length l) as [|k]; [|destruct k; discriminate].
+  injection H as <-. exfalso. eapply Hy. reflexivity.
+Qed.
+Lemma try_pop_slots : forall q it q', try_pop q = Some (it, q') ->
+  nth_error (slots q) (npop q) = Some (SFull it) /\ slots q' = set_nth (npop q) (SDone it) (slots q).
+Proof.
+  intros q it q' H. unfold try_pop in H. destruct (nth_error (slots q) (npop q)) as [[x|x|x]|] eqn:E; try discriminate.
+  injection H as <- <-. auto.
+Qed.
+Lemma lq_of_in : forall s k x, In x (slots (lq_of s k)) -> In (lq_of s k) (lqs s).
+Proof.
+  intros s k x H. unfold lq_of in *. destruct (nth_in_or_default k (lqs s) empty_queue) as [Hin|Heq]; auto.
+  rewrite Heq in H. destruct H.
+Qed.
+
+Record AccInv (s : st) : Prop := {
+  a_tk : forall t th p it, nth_error (threads s) t = Some th -> ticket_of (tpc th) = Some (p, it) ->
+         nth_error (items (gq s)) p = Some it;
+  a_gq : forall p id, (nth_error (slots (gq s)) p = Some (SFull (IFun id)) \/ nth_error (slots (gq s)) p = Some (SDone (IFun id))) ->
+         In id (accepted s);
+  a_lq : forall q x id, In q (lqs s) -> In x (slots q) -> slot_item x = IFun id -> In id (accepted s);
+  a_held : forall t th id, nth_error (threads s) t = Some th ->
+           In id (held_ids (tpc th)) \/ (exists k p, tpc th = BFill k p (IFun id)) -> In id (accepted s);
+  a_started : forall id, In id (map fst (started s)) -> In id (accepted s)
+}.
+
+Lemma ex_accepted : forall c progs s, Reach c progs s -> AccInv s.
+Proof.
+  intros c progs. apply (reach_ind c progs AccInv).
+  - constructor.
+    + intros t th p it H Hp. apply nth_error_In, init_threads_in in H.
+      destruct H as [[_ E]|[(w0 & _ & E)|[_ E]]]; rewrite E in Hp; discriminate.
+    + cbn. intros [|p] id [H|H]; discriminate.
+    + cbn. intros q x id Hq. apply repeat_spec in Hq. subst. intros [].
+    + intros t th id H Hp. apply nth_error_In, init_threads_in in H.
+      destruct H as [[_ E]|[(w0 & _ & E)|[_ E]]]; rewrite E in Hp; destruct Hp as [[]|(k & p & X)]; discriminate.
+    + cbn. intros id [].
+  - intros s t s' Hr IH Hs.
+    destruct (step_acc _ _ _ _ Hs) as (th & th' & og & ol & Hn & Ht & Hg & Hl & Hmono & Htk & Hfill & Hpush & Hheld & Hbf).
+    assert (Hitems : forall p it, nth_error (items (gq s)) p = Some it -> nth_error (items (gq s')) p = Some it).
+    { intros p it H. destruct (items_rel _ _ _ Hg) as [->|(x & _ & ->)]; auto. rewrite nth_error_app1; auto. eapply nth_error_lt; eauto. }
+    constructor.
+    + intros t0 th0 p it Hn0 Htk0. rewrite Ht in Hn0. apply nth_error_set_nth in Hn0. destruct Hn0 as [[-> ->]|[_ Hn0]].
+      * destruct (Htk _ _ Htk0) as [Hold|[-> ->]]; [apply Hitems; eapply a_tk; eauto|].
+        cbn in Hg. rewrite Hg. unfold items, app_slot; cbn. rewrite map_app, nth_error_app2, map_length, Nat.sub_diag; auto.
+        rewrite map_length. lia.
+      * apply Hitems. eapply a_tk; eauto.
+    + intros p id Hsl. destruct og as [|x|p0| |q x]; cbn in Hg.
+      * rewrite Hg in Hsl. apply Hmono. eapply a_gq; eauto.
+      * rewrite Hg in Hsl. cbn in Hsl. apply Hmono. eapply (a_gq _ IH p).
+        destruct Hsl as [H|H]; [left|right]; (eapply app_pend_inv; [exact H | intros z; discriminate]).
+      * rewrite Hg in Hsl. destruct (fill_slots (gq s) p0) as [E|(y & Hy & E)]; rewrite E in Hsl.
+        -- apply Hmono. eapply a_gq; eauto.
+        -- destruct (Nat.eq_dec p0 p) as [->|Hne].
+           ++ rewrite nth_error_set_nth_eq in Hsl by (eapply nth_error_lt; eauto).
+              destruct Hsl as [H|H]; [|discriminate]. injection H as ->.
+              destruct (Hfill _ eq_refl) as (it & Htk0 & Hacc).
+              pose proof (a_tk _ IH _ _ _ _ Hn Htk0) as Hit. unfold items in Hit. rewrite nth_error_map, Hy in Hit. cbn in Hit.
+              injection Hit as <-. destruct (Hacc _ eq_refl) as [X|(k & X)]; auto.
+              apply Hmono. eapply a_held; eauto.
+           ++ rewrite nth_error_set_nth_neq in Hsl by auto. apply Hmono. eapply a_gq; eauto.
+      * rewrite Hg in Hsl. cbn in Hsl. apply Hmono. eapply a_gq; eauto.
+      * apply pop_ready_inv in Hg. destruct Hg as (Hq & E & _). rewrite E in Hsl. destruct (Nat.eq_dec q p) as [->|Hne].
+        -- rewrite nth_error_set_nth_eq in Hsl by (eapply nth_error_lt; eauto).
+           destruct Hsl as [H|H]; [discriminate|]. injection H as ->. apply Hmono. eapply a_gq; eauto.
+        -- rewrite nth_error_set_nth_neq in Hsl by auto. apply Hmono. eapply a_gq; eauto.
+    + intros q x id Hq Hx Hit. destruct ol as [|k it q'|w id']; cbn in Hl.
+      * rewrite Hl in Hq. apply Hmono. eapply a_lq; eauto.
+      * destruct Hl as [Hp Hl']. rewrite Hl' in Hq. apply In_set_nth in Hq. destruct Hq as [->|Hq]; [|apply Hmono; eapply a_lq; eauto].
+        destruct (try_pop_slots _ _ _ Hp) as [Hfull E]. rewrite E in Hx. apply In_set_nth in Hx. apply Hmono.
+        destruct Hx as [->|Hx].
+        -- cbn in Hit. subst it. apply nth_error_In in Hfull. eapply (a_lq _ IH (lq_of s k)); eauto using lq_of_in.
+        -- eapply (a_lq _ IH (lq_of s k)); eauto using lq_of_in.
+      * rewrite Hl in Hq. apply In_set_nth in Hq. destruct Hq as [->|Hq]; [|apply Hmono; eapply a_lq; eauto].
+        cbn in Hx. apply in_app_or in Hx. destruct Hx as [Hx|[<-|[]]].
+        -- apply Hmono. eapply (a_lq _ IH (lq_of s w)); eauto using lq_of_in.
+        -- cbn in Hit. injection Hit as <-. eapply Hpush; eauto.
+    + intros t0 th0 id Hn0 Hh. rewrite Ht in Hn0. apply nth_error_set_nth in Hn0. destruct Hn0 as [[-> ->]|[_ Hn0]].
+      * destruct Hh as [Hh|(k & p & Hpc)].
+        -- destruct (Hheld _ Hh) as [X|[(q & ->)|(k & q' & ->)]].
+           ++ apply Hmono. eapply a_held; eauto.
+           ++ cbn in Hg. apply pop_ready_inv in Hg. destruct Hg as (Hq & _). apply Hmono. eapply a_gq; eauto.
+           ++ cbn in Hl. destruct Hl as [Hp _]. destruct (try_pop_slots _ _ _ Hp) as [Hfull _]. apply nth_error_In in Hfull.
+              apply Hmono. eapply (a_lq _ IH (lq_of s k)); eauto using lq_of_in.
+        -- apply Hmono. eapply (a_held _ IH _ th); [exact Hn|]. left. rewrite (Hbf _ _ _ Hpc). cbn. auto.
+      * apply Hmono. eapply a_held; eauto.
+    + intros id Hin. destruct (step_started _ _ _ _ Hs) as [E|(th1 & id0 & w & Hn1 & _ & Hpc & E)]; rewrite E in Hin.
+      * apply Hmono. eapply a_started; eauto.
+      * rewrite map_app in Hin. apply in_app_or in Hin. destruct Hin as [Hin|[<-|[]]].
+        -- apply Hmono. eapply a_started; eauto.
+        -- apply Hmono. eapply (a_held _ IH _ th1); [exact Hn1|]. left. rewrite Hpc. cbn. auto.
+Qed.
+
+Lemma ex_started_accepted : forall c progs s id w, Reach c progs s -> In (id, w) (started s) -> In id (accepted s).
+Proof.
+  intros c progs s id w Hr Hin. eapply a_started; [eapply ex_accepted; eauto|]. apply in_map_iff. exists (id, w). auto.
+Qed.
+
+(* exactly once, part 1: a task starts at most once, only if its submission was accepted, and on a worker *)
+Lemma ex_run_once : forall c progs s, NoDup (submit_ids progs ++ concat (bodies c)) -> Reach c progs s ->
+  NoDup (map fst (started s)) /\ (forall id w, In (id, w) (started s) -> In id (accepted s) /\ w < nworkers c).
+Proof.
+  intros c progs s Hwf Hr. split; [eapply ex_nodup_started; eauto|].
+  intros id w Hin. split; [eapply ex_started_accepted; eauto | eapply ex_started_on_worker; eauto].
 Qed.
 
 (* non-vacuity: one worker, local capacity 1, task 0 spawns task 1; submit 0 then stop() *)
@@ -503,3 +1563,5 @@ Lemma ex_demo : let s := run st (step demo_cfg) (init demo_cfg demo_progs) demo_
 Proof. vm_compute. repeat split; reflexivity. Qed.
 Lemma ex_demo_reach : Reach demo_cfg demo_progs (run st (step demo_cfg) (init demo_cfg demo_progs) demo_sched).
 Proof. exists demo_sched. reflexivity. Qed.
+Lemma ex_demo_wf : 1 <= nworkers demo_cfg /\ NoDup (submit_ids demo_progs ++ concat (bodies demo_cfg)).
+Proof. split; [cbn; lia|]. cbn. repeat constructor; cbn; intuition discriminate. Qed.
